@@ -82,7 +82,21 @@ def install(reg, src):
             kids = [Opaque(sp.S.F("operand", sym.Ref)(r), "Expression")]
         below = SpecFn(None, "entry below (belongs to an enclosing node)")
         child_fns = [compiled_fn(sp, k, IDX) for k in kids]
-        result_stack = PList([below] + (child_fns if phase == 1 else []))
+        order = list(range(len(kids)))
+        if phase == 1 and kids:
+            # the order in which the children's entries lie on the result stack is whatever the first-visit block of the code
+            # schedules (last pushed = processed first = deepest entry): read it off a run of that block
+            fr0, _o0 = run_block(ip, fi, pro, loop, {"expr": e, "var_indices": vi},
+                                 {"stack": PList([(e, 0, PList())]), "result_stack": PList([below])})
+            pushed = [it for it in fr0.locals["stack"].items if isinstance(it, tuple) and it[1] == 0 and isinstance(it[0], Opaque)]
+            seq_ = []
+            for it in reversed(pushed):
+                for j_, k_ in enumerate(kids):
+                    if it[0].ref.eq(k_.ref) and j_ not in seq_:
+                        seq_.append(j_)
+            if sorted(seq_) == list(range(len(kids))):
+                order = seq_
+        result_stack = PList([below] + ([child_fns[j_] for j_ in order] if phase == 1 else []))
         stack = PList([(e, phase, PList())])
         c.returns(T.none())
         c.loop_owner = key_b
@@ -127,14 +141,22 @@ def install(reg, src):
                 ok = len(st_.items) == len(want) and all(
                     isinstance(it, tuple) and it[1] == ph_ and isinstance(it[0], Opaque) and it[0].ref.eq(w.ref)
                     for it, (w, ph_) in zip(st_.items, want))
-                path.oblige(oid("first visit: node re-pushed with phase 1, then right, then left (left is processed first)"),
-                            z3.BoolVal(bool(ok)), kind="post")
+                # protocol clauses: how the two blocks of a node hand work to each other.  A refuted protocol clause means the
+                # lemma is no longer aligned with the code (reported as undecided), not that the property fails: the value
+                # clause of the second-visit block is set up with whatever order this block schedules.
+                want_set = {str(k.ref) for k in kids}
+                got = [it for it in st_.items if isinstance(it, tuple)]
+                ok = (len(got) == len(kids) + 1 and got[0][0] is e and got[0][1] == 1
+                      and {str(it[0].ref) for it in got[1:] if isinstance(it[0], Opaque)} == want_set and all(it[1] == 0 for it in got[1:]))
+                path.oblige(oid("first visit: node re-pushed with phase 1 below its children, each child scheduled once"),
+                            z3.BoolVal(bool(ok)), kind="post", protocol=True)
                 path.oblige(oid("first visit leaves the result stack untouched"),
-                            z3.BoolVal(len(rs.items) == 1 and rs.items[0] is below), kind="post")
+                            z3.BoolVal(len(rs.items) == 1 and rs.items[0] is below), kind="post", protocol=True)
                 return
-            path.oblige(oid("work stack consumed"), z3.BoolVal(len(st_.items) == 0), kind="post")
+            path.oblige(oid("work stack consumed"), z3.BoolVal(len(st_.items) == 0), kind="post", protocol=True)
             okshape = len(rs.items) == 2 and rs.items[0] is below
-            path.oblige(oid("exactly the children's entries are replaced by one entry for the node"), z3.BoolVal(okshape), kind="post")
+            path.oblige(oid("exactly the children's entries are replaced by one entry for the node"), z3.BoolVal(okshape), kind="post",
+                        protocol=True)
             if not okshape:
                 return
             f = rs.items[1]
@@ -220,10 +242,10 @@ def install_grad_blocks(reg, src):
                 ok = len(st_.items) == len(want) and all(
                     isinstance(it, tuple) and it[1] == ph_ and isinstance(it[0], Opaque) and it[0].ref.eq(w_.ref)
                     for it, (w_, ph_) in zip(st_.items, want))
-                path.oblige(oid("first visit: node re-pushed with phase 1, then its children"), z3.BoolVal(bool(ok)), kind="post")
-                path.oblige(oid("first visit stores nothing"), z3.BoolVal(mykey not in rs.items), kind="post")
+                path.oblige(oid("first visit: node re-pushed with phase 1, then its children"), z3.BoolVal(bool(ok)), kind="post", protocol=True)
+                path.oblige(oid("first visit stores nothing"), z3.BoolVal(mykey not in rs.items), kind="post", protocol=True)
                 return
-            path.oblige(oid("work stack consumed"), z3.BoolVal(len(st_.items) == 0), kind="post")
+            path.oblige(oid("work stack consumed"), z3.BoolVal(len(st_.items) == 0), kind="post", protocol=True)
             if mykey not in rs.items:
                 path.oblige(oid("a gradient is stored for the node"), False, kind="post")
                 return
@@ -304,14 +326,15 @@ def install_degree_blocks(reg, src):
                       and pushed[0][0] is e and isinstance(pushed[0][1], int) and pushed[0][1] > phase
                       and all(isinstance(it[0], Opaque) and any(it[0].ref.eq(k.ref) for k in (left, right, operand)) and it[1] == 0 for it in pushed[1:]))
                 path.oblige(oid("scheduling: node re-pushed with a later phase, one child pushed for a first visit, results untouched"),
-                            z3.BoolVal(bool(ok)), kind="post")
+                            z3.BoolVal(bool(ok)), kind="post", protocol=True)
                 if kind == "BinaryOp" and phase == 1 and len(pushed) == 2:
                     ld = pushed[0][2]
                     path.oblige(oid("phase 1 hands the left degree to phase 2 through the frame"),
-                                z3.BoolVal(ld is rs_items[1] or (isinstance(ld, SInt) and isinstance(rs_items[1], SOpt) and ld.t.eq(rs_items[1].val.t))), kind="post")
+                                z3.BoolVal(ld is rs_items[1] or (isinstance(ld, SInt) and isinstance(rs_items[1], SOpt) and ld.t.eq(rs_items[1].val.t))), kind="post", protocol=True)
                 return
             okshape = len(rs.items) == 2 and rs.items[0] is below
-            path.oblige(oid("exactly the children's entries are replaced by one entry for the node"), z3.BoolVal(okshape), kind="post")
+            path.oblige(oid("exactly the children's entries are replaced by one entry for the node"), z3.BoolVal(okshape), kind="post",
+                        protocol=True)
             if not okshape:
                 return
             res = rs.items[1]
@@ -369,9 +392,9 @@ def install_vars_blocks(reg, src):
                             z3.And(z3.BoolVal(len(st_.items) == 0 and vs is variables), vs.member(nm) == V0(nm)), kind="post")
                 return
             mykey = ip.models.b_id(ip, [e], {}, None)
-            path.oblige(oid("the node is marked seen"), z3.BoolVal(len(added) == 1 and added[0] == mykey), kind="post")
+            path.oblige(oid("the node is marked seen"), z3.BoolVal(len(added) == 1 and added[0] == mykey), kind="post", protocol=True)
             ok = all(isinstance(it, Opaque) for it in st_.items)
-            path.oblige(oid("only sub-expressions are scheduled"), z3.BoolVal(ok), kind="post")
+            path.oblige(oid("only sub-expressions are scheduled"), z3.BoolVal(ok), kind="post", protocol=True)
             if not ok:
                 return
             rhs = z3.Or(V0(nm), sp.occ(e, nm))
